@@ -189,7 +189,7 @@ def rule_change_findings(ctx, rep):
         min_instances=5,
     )
     n = 0
-    for fn in ctx.prog.functions.values():
+    for fn in ctx.prog.live_functions():
         if fn.module.name.startswith("codemodder.dependency_management"):
             continue
         r = ctx.resolver(fn)
